@@ -139,6 +139,260 @@ theorem rt_tuple (uniq : Bool) (pre : List PyVal → Bool)
   · simp [dSeq, docSeq, h3, toValueErr]
   · simp [vTuple, hu, hp, h4]
 
+/-! ### nested Structure classes and Optional -/
+def rt_toPair (a : String × PyVal) : PyVal × PyVal := (PyVal.str a.1, a.2)
+
+theorem rt_kwOfDict_map : ∀ kw : List (String × PyVal), kwOfDict (kw.map rt_toPair) = some kw
+  | [] => rfl
+  | (k, v) :: rest => by
+    have := rt_kwOfDict_map rest
+    simp [rt_toPair, kwOfDict] at this ⊢
+    simp [this]
+
+theorem rt_filter_names_nil (P : String × PyVal → Bool) (names : List String) (kw : List (String × PyVal))
+    (h : ∀ a ∈ kw, a.1 ∈ names) : kw.filter (fun a => !names.contains a.1 && P a) = [] := by
+  apply List.filter_eq_nil_iff.mpr
+  intro a ha
+  have := h a ha
+  simp [this]
+
+theorem rt_struct (O : Oracles) (opts : DeserOpts) (c : ClassOpts) (fields : List (String × FieldDecl))
+    (defaults attrs kw : List (String × PyVal))
+    (hinl : c.inline = false) (hacc : c.accepts.contains c.name = true)
+    (hreq : c.required.all (fun r => (lookup r attrs).isSome) = true)
+    (hnames : ∀ a ∈ attrs, a.1 ∈ fields.map (·.1))
+    (hnn : ∀ a ∈ attrs, a.2.isNone = false)
+    (g1 : mapE (fun (a : String × PyVal) =>
+            bindE (serField O fields a.1 a.2) fun j => .ok (PyVal.str a.1, j)) attrs = .ok (kw.map rt_toPair))
+    (g2 : isJsonPairs (kw.map rt_toPair) = true)
+    (g3 : kw.map (·.1) = attrs.map (·.1))
+    (g4 : deserFields O opts c kw fields false = .ok attrs)
+    (g5 : validateFields O c defaults attrs fields = .ok attrs) :
+    RT O opts (.struct c fields defaults) (.inst c.name attrs) := by
+  have hfil : attrs.filter (fun a => !a.2.isNone) = attrs :=
+    List.filter_eq_self.mpr (fun a ha => by simp [hnn a ha])
+  have hkwnames : ∀ a ∈ kw, a.1 ∈ fields.map (·.1) := by
+    intro a ha
+    have : a.1 ∈ kw.map (·.1) := List.mem_map_of_mem ha
+    rw [g3] at this
+    rcases List.mem_map.mp this with ⟨b, hb, hab⟩
+    rw [← hab]; exact hnames b hb
+  have hex : deserExtras opts c (fields.map (·.1)) kw = [] := by
+    unfold deserExtras
+    have := rt_filter_names_nil (fun _ => opts.keepUndefined && (c.addl || !opts.ignoreInvalidAddl))
+      (fields.map (·.1)) kw hkwnames
+    simpa [Bool.and_assoc] using this
+  have hex2 : extrasOf c (fields.map (·.1)) attrs = [] := by
+    unfold extrasOf
+    exact rt_filter_names_nil (fun a => !(a.2.isNone && c.ignoreNone)) (fields.map (·.1)) attrs hnames
+  have hbind : bindOk c (fields.map (·.1)) attrs = true := by
+    unfold bindOk
+    simp only [and_true_iff, Bool.not_eq_true', List.any_eq_false, Bool.and_eq_false_iff]
+    constructor
+    · intro r hr
+      have := (List.all_eq_true.mp hreq) r hr
+      cases h : lookup r attrs <;> simp [h] at this ⊢
+    · by_cases ha : c.addl = true
+      · left; simp [ha]
+      · right
+        intro a ha'
+        simp [hnames a ha']
+  refine ⟨.dict (kw.map rt_toPair), ?_, ?_, rfl, ?_, ?_⟩
+  · simp [ser, sInst, hfil, g1]
+  · simp [isJson, g2]
+  · simp [deser, PyVal.isNone, hinl, dClassRef, rt_kwOfDict_map, g4, hex, vConstruct, hbind, g5, hex2]
+  · have hacc' : c.name ∈ c.accepts := by simpa using hacc
+    simp [validate, hinl, vClassRef, hacc']
+
+theorem deser_nonNone (O : Oracles) (opts : DeserOpts) (ign : Bool) (f : FieldDecl) (v : PyVal)
+    (h : v.isNone = false) : deser O opts ign f v = deser O opts false f v := by
+  cases f <;> simp [deser, h]
+
+theorem rt_lookup_none_of_not_mem {α} (n : String) : ∀ kw : List (String × α),
+    n ∉ kw.map (·.1) → lookup n kw = none
+  | [], _ => rfl
+  | (k, v) :: rest, h => by
+    simp only [List.map_cons, List.mem_cons, not_or] at h
+    have : (n == k) = false := by simpa using h.1
+    simp [lookup, this, rt_lookup_none_of_not_mem n rest h.2]
+
+theorem rt_lookup_cons_ne {α} (n k : String) (v : α) (kw : List (String × α)) (h : n ≠ k) :
+    lookup n ((k, v) :: kw) = lookup n kw := by
+  have : (n == k) = false := by simpa using h
+  simp [lookup, this]
+
+theorem deserFields_congr (O : Oracles) (opts : DeserOpts) (c : ClassOpts)
+    (kw kw' : List (String × PyVal)) :
+    ∀ (fs : List (String × FieldDecl)) (e : Bool),
+      (∀ m ∈ fs.map (·.1), lookup m kw = lookup m kw') →
+      deserFields O opts c kw fs e = deserFields O opts c kw' fs e
+  | [], e, _ => by simp [deserFields]
+  | (n, f) :: rest, e, h => by
+    have hn := h n (by simp)
+    have ih := fun e' => deserFields_congr O opts c kw kw' rest e' (fun m hm => h m (by simp [hm]))
+    simp only [deserFields, hn, ih]
+
+theorem validateFields_congr (O : Oracles) (c : ClassOpts) (defaults kw kw' : List (String × PyVal)) :
+    ∀ (fs : List (String × FieldDecl)),
+      (∀ m ∈ fs.map (·.1), lookup m kw = lookup m kw') →
+      validateFields O c defaults kw fs = validateFields O c defaults kw' fs
+  | [], _ => by simp [validateFields]
+  | (n, f) :: rest, h => by
+    have hn := h n (by simp)
+    have ih := validateFields_congr O c defaults kw kw' rest (fun m hm => h m (by simp [hm]))
+    simp only [validateFields, argFor, hn, ih]
+
+theorem rt_mapE_congr {α β} (g g' : α → R β) : ∀ xs : List α, (∀ x ∈ xs, g x = g' x) → mapE g xs = mapE g' xs
+  | [], _ => rfl
+  | x :: xs, h => by
+    simp only [mapE, h x (by simp), rt_mapE_congr g g' xs (fun y hy => h y (by simp [hy]))]
+
+theorem canonAttrs_names (O : Oracles) (c : ClassOpts) (defaults : List (String × PyVal)) :
+    ∀ (fs : List (String × FieldDecl)) (attrs : List (String × PyVal)),
+      canonAttrs O c defaults fs attrs = true → ∀ a ∈ attrs, a.1 ∈ fs.map (·.1)
+  | [], attrs, h, a, ha => by
+    simp only [canonAttrs, List.isEmpty_iff] at h
+    subst h; simp at ha
+  | (n, f) :: rest, [], _, a, ha => by simp at ha
+  | (n, f) :: rest, (m, v) :: as, h, a, ha => by
+    simp only [canonAttrs] at h
+    by_cases hm : (m == n) = true
+    · simp only [hm, if_true, and_true_iff] at h
+      have hmn : m = n := by simpa using hm
+      rcases List.mem_cons.mp ha with rfl | ha'
+      · simp [hmn]
+      · have := canonAttrs_names O c defaults rest as h.2 a ha'
+        simp [this]
+    · simp only [hm, Bool.false_eq_true, if_false, and_true_iff] at h
+      have := canonAttrs_names O c defaults rest ((m, v) :: as) h.2 a ha
+      simp [this]
+
+theorem canonAttrs_nonNone (O : Oracles) (c : ClassOpts) (defaults : List (String × PyVal)) :
+    ∀ (fs : List (String × FieldDecl)) (attrs : List (String × PyVal)),
+      canonAttrs O c defaults fs attrs = true → ∀ a ∈ attrs, a.2.isNone = false
+  | [], attrs, h, a, ha => by
+    simp only [canonAttrs, List.isEmpty_iff] at h
+    subst h; simp at ha
+  | (n, f) :: rest, [], _, a, ha => by simp at ha
+  | (n, f) :: rest, (m, v) :: as, h, a, ha => by
+    simp only [canonAttrs] at h
+    by_cases hm : (m == n) = true
+    · simp only [hm, if_true, and_true_iff] at h
+      rcases List.mem_cons.mp ha with rfl | ha'
+      · simpa using h.1.1.1
+      · exact canonAttrs_nonNone O c defaults rest as h.2 a ha'
+    · simp only [hm, Bool.false_eq_true, if_false, and_true_iff] at h
+      exact canonAttrs_nonNone O c defaults rest ((m, v) :: as) h.2 a ha
+
+theorem absent_argFor (c : ClassOpts) (defaults kw : List (String × PyVal)) (n : String)
+    (h : absentOk c defaults n = true) (hk : lookup n kw = none) : argFor c defaults kw n = none := by
+  unfold absentOk at h
+  simp only [and_true_iff] at h
+  unfold argFor
+  simp only [hk]
+  cases hd : lookup n defaults with
+  | none => rfl
+  | some d => simp [hd] at h; simp [h.2]
+
+/-- what `serialize_multifield_wrapper` checks before it tries an option: holds for every
+    conforming value of the fragment -/
+theorem shallowOk_of_frag (O : Oracles) (f : FieldDecl) (v : PyVal)
+    (hc : conforms O f v = true) (hf : inFrag O f v = true) : shallowOk O f v = true := by
+  cases f with
+  | number o =>
+    simp only [conforms, aNumber] at hc
+    cases hq : v.asNum with
+    | none => simp [hq] at hc
+    | some q =>
+      simp only [hq] at hc
+      have := geMin_noSign o q hc
+      simp only [noSign] at this
+      simp [shallowOk, vNumber, hq, this, Except.toBool]
+  | integer o =>
+    simp only [conforms, aInteger] at hc
+    cases v <;> simp at hc
+    all_goals
+      have := geMin_noSign o _ hc
+      simp only [noSign] at this
+      simp [shallowOk, vInteger, this, Except.toBool]
+  | float o =>
+    simp only [conforms, cFloat] at hc
+    cases v <;> simp at hc
+    have := geMin_noSign o _ hc
+    simp only [noSign] at this
+    simp [shallowOk, vFloat, this, Except.toBool]
+  | string lo hi pat =>
+    simp only [conforms] at hc
+    rcases rt_string O {} lo hi pat v hc with ⟨_, _, _, _, _, h5⟩
+    simp only [validate] at h5
+    simp [shallowOk, h5, Except.toBool]
+  | boolean =>
+    simp only [conforms] at hc
+    rcases rt_boolean O {} v hc with ⟨_, _, _, _, _, h5⟩
+    simp only [validate] at h5
+    simp [shallowOk, h5, Except.toBool]
+  | enumLit vals =>
+    simp only [conforms] at hc
+    simp [shallowOk, vEnumLit, hc, Except.toBool]
+  | enumCls cls names =>
+    simp only [conforms] at hc
+    rcases rt_enumCls O {} cls names v hc with ⟨_, _, _, _, _, h5⟩
+    simp only [validate] at h5
+    simp [shallowOk, h5, Except.toBool]
+  | seqOf k g sz =>
+    simp only [conforms, cSeq] at hc
+    cases hs : seqElems k v with
+    | none => simp [hs] at hc
+    | some xs => simp [shallowOk, hs]
+  | seqPos k gs addl sz =>
+    simp only [conforms, cSeq] at hc
+    cases hs : seqElems k v with
+    | none => simp [hs] at hc
+    | some xs => simp [shallowOk, hs]
+  | tupleOf g u =>
+    simp only [conforms, cTuple] at hc
+    cases v <;> simp at hc
+    simp [shallowOk]
+  | tuplePos gs u =>
+    simp only [conforms, cTuple] at hc
+    cases v <;> simp at hc
+    simp [shallowOk]
+  | struct c fields defaults =>
+    simp only [inFrag, and_true_iff] at hf
+    obtain ⟨⟨⟨hinl, hacc⟩, _⟩, hv⟩ := hf
+    cases v with
+    | inst n attrs =>
+      simp only [and_true_iff] at hv
+      have hn' : n = c.name := by simpa using hv.1.1
+      subst hn'
+      have hinl' : c.inline = false := by simpa using hinl
+      have hacc' : c.name ∈ c.accepts := by simpa using hacc
+      simp [shallowOk, hinl', vClassRef, hacc', Except.toBool]
+    | _ => simp at hv
+  | anyOf fs => simp [shallowOk]
+  | seqAny _ _ => simp [inFrag] at hf
+  | setAny _ _ => simp [inFrag] at hf
+  | setOf _ _ _ => simp [inFrag] at hf
+  | mapAny _ => simp [inFrag] at hf
+  | mapOf _ _ _ => simp [inFrag] at hf
+  | oneOf _ => simp [inFrag] at hf
+  | allOf _ => simp [inFrag] at hf
+  | notF _ => simp [inFrag] at hf
+  | noneF => simp [inFrag] at hf
+  | anything => simp [inFrag] at hf
+
+theorem rt_optional (O : Oracles) (opts : DeserOpts) (g : FieldDecl) (v j : PyVal)
+    (hnn : v.isNone = false) (hsh : shallowOk O g v = true)
+    (h1 : ser O g v = .ok j) (h2 : isJson j = true) (h3 : j.isNone = v.isNone)
+    (h4 : deser O opts false g j = .ok v) (h5 : validate O g v = .ok v) :
+    RT O opts (.anyOf [.noneF, g]) v := by
+  have hjn : j.isNone = false := by rw [h3]; exact hnn
+  have hs0 : shallowOk O .noneF v = false := by simp [shallowOk, hnn]
+  refine ⟨j, ?_, h2, h3, ?_, ?_⟩
+  · simp [ser, serFirst, hs0, hsh, h1]
+  · simp [deser, hjn, deserAny, h4]
+  · simp [validate, validateAny, vNone, hnn, h5]
+
 mutual
 theorem round_trip (O : Oracles) (opts : DeserOpts) : ∀ (f : FieldDecl) (v : PyVal),
     conforms O f v = true → inFrag O f v = true → RT O opts f v
@@ -225,8 +479,35 @@ theorem round_trip (O : Oracles) (opts : DeserOpts) : ∀ (f : FieldDecl) (v : P
   | .setOf _ _ _, _, _, hf => by simp [inFrag] at hf
   | .mapAny _, _, _, hf => by simp [inFrag] at hf
   | .mapOf _ _ _, _, _, hf => by simp [inFrag] at hf
-  | .struct _ _ _, _, _, hf => by simp [inFrag] at hf
-  | .anyOf _, _, _, hf => by simp [inFrag] at hf
+  | .struct c fields defaults, v, _, hf => by
+    simp only [inFrag, and_true_iff] at hf
+    obtain ⟨⟨⟨hinl, hacc⟩, hnd⟩, hv⟩ := hf
+    cases v with
+    | inst n attrs =>
+      simp only [and_true_iff] at hv
+      obtain ⟨⟨hn, hreq⟩, hcan⟩ := hv
+      have hn' : n = c.name := by simpa using hn
+      subst hn'
+      have hnd' : (fields.map (·.1)).Nodup := by simpa using hnd
+      rcases rt_fields O opts c defaults fields attrs hnd' hcan with ⟨kw, g1, g2, g3, g4, g5⟩
+      exact rt_struct O opts c fields defaults attrs kw (by simpa using hinl) hacc hreq
+        (canonAttrs_names O c defaults fields attrs hcan)
+        (canonAttrs_nonNone O c defaults fields attrs hcan) g1 g2 g3 g4 g5
+    | _ => simp at hv
+  | .anyOf fs, v, _, hf => by
+    simp only [inFrag] at hf
+    match fs, hf with
+    | [], hf => simp [inFragOpt] at hf
+    | [_], hf => simp [inFragOpt] at hf
+    | _ :: _ :: _ :: _, hf => simp [inFragOpt] at hf
+    | [f, g], hf =>
+      simp only [inFragOpt, and_true_iff] at hf
+      obtain ⟨⟨⟨h0, hnn⟩, hcg⟩, hfg⟩ := hf
+      have hnn' : v.isNone = false := by simpa using hnn
+      have hf0 : f = .noneF := by cases f <;> simp [isNoneF] at h0 <;> rfl
+      subst hf0
+      rcases round_trip O opts g v hcg hfg with ⟨j, h1, h2, h3, h4, h5⟩
+      exact rt_optional O opts g v j hnn' (shallowOk_of_frag O g v hcg hfg) h1 h2 h3 h4 h5
   | .oneOf _, _, _, hf => by simp [inFrag] at hf
   | .allOf _, _, _, hf => by simp [inFrag] at hf
   | .notF _, _, _, hf => by simp [inFrag] at hf
@@ -249,6 +530,82 @@ theorem round_trip_zip (O : Oracles) (opts : DeserOpts) : ∀ (fs : List FieldDe
     · simp [isJsonList, h2, g2]
     · simp [deserZip, h4, g3]
     · simp [validateZip, h5, g4]
+
+theorem rt_fields (O : Oracles) (opts : DeserOpts) (c : ClassOpts) (defaults : List (String × PyVal)) :
+    ∀ (fs : List (String × FieldDecl)) (attrs : List (String × PyVal)),
+    (fs.map (·.1)).Nodup → canonAttrs O c defaults fs attrs = true →
+    ∃ kw : List (String × PyVal),
+      mapE (fun (a : String × PyVal) =>
+          bindE (serField O fs a.1 a.2) fun j => .ok (PyVal.str a.1, j)) attrs = .ok (kw.map rt_toPair)
+      ∧ isJsonPairs (kw.map rt_toPair) = true
+      ∧ kw.map (·.1) = attrs.map (·.1)
+      ∧ deserFields O opts c kw fs false = .ok attrs
+      ∧ validateFields O c defaults attrs fs = .ok attrs
+  | [], attrs, _, hc => by
+    simp only [canonAttrs, List.isEmpty_iff] at hc
+    subst hc
+    exact ⟨[], rfl, rfl, rfl, by simp [deserFields], by simp [validateFields]⟩
+  | (n, f) :: rest, [], hnd, hc => by
+    simp only [canonAttrs, and_true_iff] at hc
+    have hnd' : (rest.map (·.1)).Nodup := (List.nodup_cons.mp (by simpa using hnd)).2
+    rcases rt_fields O opts c defaults rest [] hnd' hc.2 with ⟨kw, _, _, g3, g4, g5⟩
+    have hkw : kw = [] := by simpa using g3
+    subst hkw
+    refine ⟨[], rfl, rfl, rfl, ?_, ?_⟩
+    · simp only [deserFields, lookup]; exact g4
+    · have := absent_argFor c defaults [] n hc.1 rfl
+      simp only [validateFields, this]; exact g5
+  | (n, f) :: rest, (m, v) :: as, hnd, hc => by
+    have hnd0 := List.nodup_cons.mp (show (n :: rest.map (·.1)).Nodup by simpa using hnd)
+    simp only [canonAttrs] at hc
+    by_cases hm : (m == n) = true
+    · have hmn : m = n := by simpa using hm
+      subst hmn
+      simp only [hm, if_true, and_true_iff] at hc
+      obtain ⟨⟨⟨hvn, hcf⟩, hff⟩, hrest⟩ := hc
+      have hvn' : v.isNone = false := by simpa using hvn
+      rcases round_trip O opts f v hcf hff with ⟨j, h1, h2, h3, h4, h5⟩
+      rcases rt_fields O opts c defaults rest as hnd0.2 hrest with ⟨kw, g1, g2, g3, g4, g5⟩
+      have hjn : j.isNone = false := by rw [h3]; exact hvn'
+      have hasn : ∀ a ∈ as, a.1 ≠ m := fun a ha hEq =>
+        hnd0.1 (hEq ▸ canonAttrs_names O c defaults rest as hrest a ha)
+      have hrn : ∀ k ∈ rest.map (·.1), k ≠ m := fun k hk hEq => hnd0.1 (hEq ▸ hk)
+      refine ⟨(m, j) :: kw, ?_, ?_, ?_, ?_, ?_⟩
+      · have htail : mapE (fun (a : String × PyVal) =>
+            bindE (serField O ((m, f) :: rest) a.1 a.2) fun j => .ok (PyVal.str a.1, j)) as
+            = mapE (fun (a : String × PyVal) =>
+            bindE (serField O rest a.1 a.2) fun j => .ok (PyVal.str a.1, j)) as :=
+          rt_mapE_congr _ _ as (fun a ha => by
+            have : (a.1 == m) = false := by simpa using hasn a ha
+            simp only [serField, this, Bool.false_eq_true, if_false])
+        simp only [mapE]
+        rw [htail, g1]
+        simp [serField, h1, rt_toPair]
+      · simp [isJsonPairs, isJsonKey, rt_toPair, h2]; simpa [rt_toPair] using g2
+      · simp [g3]
+      · have hcong := deserFields_congr O opts c ((m, j) :: kw) kw rest false
+          (fun k hk => rt_lookup_cons_ne k m j kw (hrn k hk))
+        simp [deserFields, lookup, hjn, deser_nonNone O opts c.ignoreNone f j hjn, h4, hcong, g4]
+      · have hcong := validateFields_congr O c defaults ((m, v) :: as) as rest
+          (fun k hk => rt_lookup_cons_ne k m v as (hrn k hk))
+        simp [validateFields, argFor, lookup, hvn', h5, hcong, g5]
+    · simp only [hm, Bool.false_eq_true, if_false, and_true_iff] at hc
+      rcases rt_fields O opts c defaults rest ((m, v) :: as) hnd0.2 hc.2 with ⟨kw, g1, g2, g3, g4, g5⟩
+      have hnames := canonAttrs_names O c defaults rest ((m, v) :: as) hc.2
+      have hattn : ∀ a ∈ ((m, v) :: as), a.1 ≠ n := fun a ha hEq => hnd0.1 (hEq ▸ hnames a ha)
+      have hn_attrs : n ∉ ((m, v) :: as).map (·.1) := by
+        intro hmem
+        rcases List.mem_map.mp hmem with ⟨a, ha, hEq⟩
+        exact hattn a ha hEq
+      have hn_kw : n ∉ kw.map (·.1) := by rw [g3]; exact hn_attrs
+      refine ⟨kw, ?_, g2, g3, ?_, ?_⟩
+      · rw [← g1]
+        exact rt_mapE_congr _ _ _ (fun a ha => by
+          have : (a.1 == n) = false := by simpa using hattn a ha
+          simp only [serField, this, Bool.false_eq_true, if_false])
+      · simp only [deserFields, rt_lookup_none_of_not_mem n kw hn_kw]; exact g4
+      · have := absent_argFor c defaults ((m, v) :: as) n hc.1 (rt_lookup_none_of_not_mem n _ hn_attrs)
+        simp only [validateFields, this]; exact g5
 end
 
 end Typedpy
